@@ -80,6 +80,19 @@ func chancePct(t *rapid.T, pct int, label string) bool {
 	return uniformN(t, 100, label) >= 100-pct
 }
 
+// genSlice draws a slice whose length is near-uniform in lo..hi. rapid's own SliceOfN
+// has a geometric length distribution (average about lo+5 whatever hi is); here the
+// target length comes from fair bits and SliceOfN fills it, so it still shrinks towards
+// short slices (the bits shrink to zero, SliceOfN drops elements down to its minimum).
+func genSlice[T any](t *rapid.T, gen *rapid.Generator[T], lo, hi int, label string) []T {
+	n := lo + uniformN(t, hi-lo+1, label+"len")
+	m := n - 2
+	if m < lo {
+		m = lo
+	}
+	return rapid.SliceOfN(gen, m, n).Draw(t, label)
+}
+
 func (g *appGen) draw(n int, label string) int { return uniformN(g.t, n, label) }
 func (g *appGen) chance(pct int, label string) bool {
 	return chancePct(g.t, pct, label)
@@ -798,6 +811,6 @@ func GenHistory(t *rapid.T, a *app.App, o HistOpts) []string {
 	if rapid.IntRange(0, 9).Draw(t, "firstnonempty") == 0 {
 		first = g.Draw(t, "first")
 	}
-	rest := rapid.SliceOfN(g, 0, o.MaxLen).Draw(t, "inputs")
+	rest := genSlice(t, g, 0, o.MaxLen, "inputs")
 	return append([]string{first}, rest...)
 }
